@@ -417,6 +417,25 @@ func scaling(e *Env, rep *Report) {
 		g = append(g, GNode{Kind: "func"}, GNode{Kind: "func"})
 		return g
 	}
+	// lattices whose edges go through struct providers, interface bindings and field providers
+	latticeStruct := func(depth int) []GNode {
+		var g []GNode
+		for i := 0; i < depth; i++ {
+			g = append(g, GNode{Kind: "struct", Deps: []int{2*i + 2, 2*i + 3}}, GNode{Kind: "struct", Deps: []int{2*i + 2, 2*i + 3}})
+		}
+		return append(g, GNode{Kind: "func"}, GNode{Kind: "func"})
+	}
+	// level i: nodes 4i (bind->4i+2), 4i+1 (bind->4i+3), 4i+2 and 4i+3 (func needing both binds of level i+1)
+	latticeVia := func(kind string, depth int) []GNode {
+		var g []GNode
+		for i := 0; i < depth; i++ {
+			next := []int{4*i + 4, 4*i + 5}
+			g = append(g, GNode{Kind: kind, Deps: []int{4*i + 2}}, GNode{Kind: kind, Deps: []int{4*i + 3}},
+				GNode{Kind: "func", Deps: next}, GNode{Kind: "func", Deps: next})
+		}
+		// bottom level: two plain leaves standing for the last pair
+		return append(g, GNode{Kind: "func"}, GNode{Kind: "func"})
+	}
 	depths := []int{5, 10, 20, 40}
 	chains := []int{50, 200}
 	if e.Tier == "thorough" {
@@ -425,6 +444,9 @@ func scaling(e *Env, rep *Report) {
 	}
 	for _, d := range depths {
 		cases = append(cases, sc{"lattice", d, lattice(d)})
+		if d <= 20 || e.Tier == "thorough" {
+			cases = append(cases, sc{"lattice-struct", d, latticeStruct(d)}, sc{"lattice-bind", d, latticeVia("bind", d)}, sc{"lattice-field", d, latticeVia("field", d)})
+		}
 	}
 	for _, n := range chains {
 		g := make([]GNode, n)
@@ -499,10 +521,12 @@ func scaling(e *Env, rep *Report) {
 		rep.Sample(map[string]interface{}{"family": name, "V": V, "E": E, "solve_steps": steps["solve"], "acyclic_steps": steps["acyclic"], "budget": budget})
 	}
 	// doubling clause on lattices
-	for d, o := range seen["lattice"] {
-		if o2, ok := seen["lattice"][2*d]; ok {
-			if o2.solve > 3*o.solve+16 || o2.acyclic > 3*o.acyclic+16 {
-				rep.Violations = append(rep.Violations, Issue{Prop: "C07", Clause: fmt.Sprintf("steps more than triple when lattice depth doubles %d->%d: solve %d->%d acyclic %d->%d", d, 2*d, o.solve, o2.solve, o.acyclic, o2.acyclic), Witness: "(no bundle)", Sig: "C07:doubling"})
+	for _, fam := range []string{"lattice", "lattice-struct", "lattice-bind", "lattice-field"} {
+		for d, o := range seen[fam] {
+			if o2, ok := seen[fam][2*d]; ok {
+				if o2.solve > 3*o.solve+16 || o2.acyclic > 3*o.acyclic+16 {
+					rep.Violations = append(rep.Violations, Issue{Prop: "C07", Clause: fmt.Sprintf("steps more than triple when %s depth doubles %d->%d: solve %d->%d acyclic %d->%d", fam, d, 2*d, o.solve, o2.solve, o.acyclic, o2.acyclic), Witness: "(no bundle)", Sig: "C07:doubling"})
+				}
 			}
 		}
 	}
